@@ -249,3 +249,20 @@ Proof.
   - left. split; assumption.
   - right. split; lra.
 Qed.
+
+(* the same bound stated on the seconds count x itself (x is what the float code actually
+   splits: the float product abs(dd)*3600, within half an ulp of the exact product) *)
+Lemma dms_of_x_roundtrip x : 0 <= x ->
+  - dms_eps <= dms_num (dms_of_x x true) - x / 3600 /\
+  dms_num (dms_of_x x true) - x / 3600 <= dms_eps.
+Proof.
+  intro Hx.
+  destruct (dms_of_x_decomp _ true Hx) as (sec & S0 & S1 & E & ES & D0 & M & P).
+  pose proof (dms_num_unfold (dms_of_x x true)) as U.
+  set (t := dms_of_x x true) in *.
+  rewrite P in U. destruct (rhu5_spec sec) as [RL RU]. rewrite <- ES in RL, RU.
+  set (k := inject_Z (s5 t)) in *. set (s' := k / 100000) in *.
+  assert (Hs : s' * 100000 == k) by (unfold s'; field).
+  set (y := x / 3600). assert (Hy : y * 3600 == x) by (unfold y; field).
+  unfold dms_eps. split; lra.
+Qed.
